@@ -357,7 +357,8 @@ pub fn simulate(geo: &Geo, veh: &VehicleSpec, stops: &[SimStop]) -> Result<SimRe
     if load > veh.capacity {
         return Err(SimFail::Overload { at: None });
     }
-    let mut open_pairs: Vec<usize> = Vec::new();
+    // amount picked up and not yet delivered, per multi job (a job may have several pickups or several deliveries)
+    let mut open_pairs: std::collections::BTreeMap<usize, i32> = Default::default();
     let (mut loc, mut time) = (veh.start_loc, veh.start_time);
     for (at, stop) in stops.iter().enumerate() {
         let arrival = time + geo.duration(loc, stop.loc);
@@ -375,13 +376,14 @@ pub fn simulate(geo: &Geo, veh: &VehicleSpec, stops: &[SimStop]) -> Result<SimRe
             Kind::Exchange(pickup) => load += pickup - stop.size,
             Kind::DynPickup => {
                 load += stop.size;
-                open_pairs.push(stop.pair);
+                *open_pairs.entry(stop.pair).or_default() += stop.size;
             }
             Kind::DynDelivery => {
-                match open_pairs.iter().position(|p| *p == stop.pair) {
-                    Some(pos) => open_pairs.remove(pos),
-                    None => return Err(SimFail::PairOrder { at }),
+                match open_pairs.get_mut(&stop.pair) {
+                    Some(open) if *open >= stop.size => *open -= stop.size,
+                    _ => return Err(SimFail::PairOrder { at }),
                 };
+                open_pairs.retain(|_, open| *open != 0);
                 load -= stop.size;
             }
         }
@@ -778,6 +780,8 @@ pub struct GenCfg {
     pub candidates: usize,
     /// share of pickup-delivery (multi) candidates
     pub multi_share: f64,
+    /// share of the multi candidates which have three tasks (two pickups + one delivery of the sum, or one pickup + two deliveries)
+    pub triple_share: f64,
     pub layers: Vec<Layer>,
     /// random prices / fixed costs / job values (otherwise distance price 1, everything else 0)
     pub priced: bool,
@@ -943,6 +947,11 @@ pub fn gen_route(rng: &mut Rng, geo: &Geo, vehicles: &mut [VehicleSpec], vehicle
 /// critical for one randomly chosen target position (arrival there, remaining capacity), so that the evaluator is
 /// exercised near its boundaries and not only far inside or far outside the feasible region.
 pub fn gen_candidate(rng: &mut Rng, spec: &MicroSpec, route: &RouteSpec, multi: bool, priced: bool) -> JobSpec {
+    gen_candidate_ext(rng, spec, route, multi, priced, false)
+}
+
+/// `triple`: a multi candidate gets a third task (second pickup in front, or second delivery at the end).
+pub fn gen_candidate_ext(rng: &mut Rng, spec: &MicroSpec, route: &RouteSpec, multi: bool, priced: bool, triple: bool) -> JobSpec {
     let geo = &spec.geo;
     let veh = &spec.vehicles[route.vehicle];
     let base = spec.simulate(route).ok();
@@ -1007,6 +1016,22 @@ pub fn gen_candidate(rng: &mut Rng, spec: &MicroSpec, route: &RouteSpec, multi: 
         };
         add_decoys(rng, geo, &mut pickup, arrival, 0.2, 0.15);
         add_decoys(rng, geo, &mut delivery, later, 0.2, 0.15);
+        if triple {
+            // the tasks keep their order (fixed permutation): pickup, pickup, delivery of both amounts / pickup of both amounts, delivery, delivery
+            let extra = around_size(rng);
+            let loc = rng.usize_below(geo.size());
+            if rng.chance(0.5) {
+                let mid = arrival.max(pickup_win.0) + pickup_dur + geo.duration(pickup_loc, loc) + rng.range_i64(0, 4) as f64;
+                let second = TaskSpec { places: vec![PlaceSpec { loc, dur: *rng.pick(&[0., 1., 2., 4.]), windows: vec![gen_window(rng, mid)] }], kind: Kind::DynPickup, size: extra };
+                delivery.size = size + extra;
+                return JobSpec { tasks: vec![pickup, second, delivery], value };
+            } else {
+                let end = later + geo.duration(delivery_loc, loc) + rng.range_i64(0, 6) as f64;
+                let second = TaskSpec { places: vec![PlaceSpec { loc, dur: *rng.pick(&[0., 1., 2., 4.]), windows: vec![gen_window(rng, end)] }], kind: Kind::DynDelivery, size: extra };
+                pickup.size = size + extra;
+                return JobSpec { tasks: vec![pickup, delivery, second], value };
+            }
+        }
         JobSpec { tasks: vec![pickup, delivery], value }
     }
 }
@@ -1055,7 +1080,8 @@ pub fn gen_case(rng: &mut Rng, cfg: &GenCfg) -> Case {
     for c in 0..cfg.candidates {
         let route = &routes[c % routes.len()];
         let multi = rng.chance(cfg.multi_share);
-        let job = gen_candidate(rng, &spec, route, multi, cfg.priced);
+        let triple = multi && cfg.triple_share > 0. && rng.chance(cfg.triple_share);
+        let job = gen_candidate_ext(rng, &spec, route, multi, cfg.priced, triple);
         spec.jobs.push(job);
         candidates.push(spec.jobs.len() - 1);
     }
